@@ -1,0 +1,126 @@
+//go:build verif
+
+package vgirpc
+
+import (
+	"bytes"
+	"compress/gzip"
+	"errors"
+	"net/http"
+	"net/http/httptest"
+
+	"github.com/klauspost/compress/zstd"
+)
+
+// Verification hooks for property C18 (request bodies are decoded exactly and
+// never beyond their caps). Add-only; compiled in only with -tags verif.
+
+// VerifReadHTTPBody calls the real readHTTPBody of a configured server.
+func VerifReadHTTPBody(h *HttpServer, r *http.Request) ([]byte, error) { return h.readHTTPBody(r) }
+
+// VerifWriteBodyReadError calls the real writeBodyReadError (nil schema).
+func VerifWriteBodyReadError(h *HttpServer, w http.ResponseWriter, err error) {
+	h.writeBodyReadError(w, err, nil)
+}
+
+// VerifDecompressBounded exposes decompressBounded.
+func VerifDecompressBounded(encoding string, data []byte, maxOutput int64) ([]byte, error) {
+	return decompressBounded(encoding, data, maxOutput)
+}
+
+// VerifBodyErrClass classifies an error of readHTTPBody / decompressBounded /
+// DecodeContentEncoding by its Go type (never by its prose) and returns the
+// limit it carries (0 when it carries none).
+//
+//	"request_too_large"  *requestBodyTooLargeError   (names max_request_bytes)
+//	"decoded_too_large"  *decodedBodyTooLargeError
+//	"unsupported"        *unsupportedEncodingError
+//	"rpc"                *RpcError                   (the raw maxBodySize refusal)
+//	"other"              anything else (codec / transport errors)
+func VerifBodyErrClass(err error) (string, int64) {
+	cls, lim, _ := VerifBodyErrClassEnc(err)
+	return cls, lim
+}
+
+// VerifBodyErrClassEnc additionally returns the coding an
+// *unsupportedEncodingError carries.
+func VerifBodyErrClassEnc(err error) (string, int64, string) {
+	if err == nil {
+		return "", 0, ""
+	}
+	var a *requestBodyTooLargeError
+	if errors.As(err, &a) {
+		return "request_too_large", a.Limit, ""
+	}
+	var b *decodedBodyTooLargeError
+	if errors.As(err, &b) {
+		return "decoded_too_large", b.Limit, ""
+	}
+	var c *unsupportedEncodingError
+	if errors.As(err, &c) {
+		return "unsupported", 0, c.Encoding
+	}
+	var d *RpcError
+	if errors.As(err, &d) {
+		return "rpc", 0, ""
+	}
+	return "other", 0, ""
+}
+
+func verifC18Status(h *HttpServer, err error) int64 {
+	rec := httptest.NewRecorder()
+	h.writeBodyReadError(rec, err, nil)
+	return int64(rec.Code)
+}
+
+func init() {
+	verifConstProviders = append(verifConstProviders, func() []VerifConst {
+		h := NewHttpServer(NewServer())
+		// which coding names decompressBounded decodes, and which of them is zstd /
+		// gzip: recovered by feeding it one frame of each library
+		ze, _ := zstd.NewWriter(nil)
+		zframe := ze.EncodeAll([]byte("probe"), nil)
+		var gbuf bytes.Buffer
+		gw := gzip.NewWriter(&gbuf)
+		_, _ = gw.Write([]byte("probe"))
+		_ = gw.Close()
+		var decodable []string
+		zname, gname := "", ""
+		for _, n := range []string{"zstd", "gzip", "br", "deflate", "identity", "", "x-gzip", "zst", "compress"} {
+			_, e := decompressBounded(n, nil, 0)
+			if cls, _ := VerifBodyErrClass(e); cls == "unsupported" {
+				continue
+			}
+			decodable = append(decodable, n)
+			if out, e := decompressBounded(n, zframe, 0); e == nil && string(out) == "probe" {
+				zname = n
+			}
+			if out, e := decompressBounded(n, gbuf.Bytes(), 0); e == nil && string(out) == "probe" {
+				gname = n
+			}
+		}
+		// the status of the ContentLength pre-check, from a real ServeHTTP
+		pre := NewHttpServer(NewServer())
+		pre.SetMaxRequestBytes(1)
+		prq := httptest.NewRequest("POST", "/x", bytes.NewReader([]byte("0123456789")))
+		prec := httptest.NewRecorder()
+		pre.ServeHTTP(prec, prq)
+		return []VerifConst{
+			verifNum("c18_default_max_body_size", h.maxBodySize),
+			verifNum("c18_default_max_request_bytes", h.maxRequestBytes),
+			verifNum("c18_default_max_decompressed", h.maxDecompressedBodySize),
+			verifNum("c18_zstd_min_window", zstd.MinWindowSize),
+			verifNum("c18_zstd_max_window", zstd.MaxWindowSize),
+			verifNum("c18_status_request_too_large", verifC18Status(h, &requestBodyTooLargeError{Limit: 1})),
+			verifNum("c18_status_decoded_too_large", verifC18Status(h, &decodedBodyTooLargeError{Limit: 1})),
+			verifNum("c18_status_unsupported", verifC18Status(h, &unsupportedEncodingError{Encoding: "br"})),
+			verifNum("c18_status_other", verifC18Status(h, errors.New("x"))),
+			verifNum("c18_status_precheck", int64(prec.Code)),
+			verifList("c18_decodable_codings", decodable),
+			verifBytes("c18_zstd", zname),
+			verifBytes("c18_gzip", gname),
+			verifBytes("c18_identity", identityEncoding),
+			verifBytes("c18_h_content_encoding", contentEncodingHeader),
+		}
+	})
+}
